@@ -80,6 +80,12 @@ def _job(job):
     # the same candidates under every encoding: None, an index subset, or feature rows
     y_nan = np.array([NAN if c is None else float(c) for c in codes])
     cmode, cand = R.gen_candidates(rng, E, X, y_nan) if rng.random() < 0.6 else ("none", None)
+    if E.feat and seed_tuple[2] % 3 == 2:
+        # every sample of (X, y) is labeled (the label array is as narrow as the class labels, no sentinel inside) and the candidates
+        # are NEW points given as feature rows
+        codes = [int(rng.integers(K)) for _ in range(n)]
+        codes[:K] = list(range(K))
+        cmode, cand = "feat", rng.normal(size=(int(rng.integers(2, 6)), 2)) + rng.integers(0, 2, size=(1, 1)) * 2.0
     outs, problems = [], []
     for enc in ENC:
         name, classes, ml, dt = enc
@@ -168,7 +174,7 @@ def run(ctx):
             for kind, msg in out["problems"]:
                 ctx.violation(out["name"], kind, msg, {k: out[k] for k in ("name", "codes", "X", "seed", "bs", "candidates_mode", "candidates")},
                               what=f"{out['name']}: {kind.replace('_', ' ')} ({msg}) [found by the search started by the broken site table]")
-    jobs = [(ei, (ctx.seed, ei, h, 909)) for ei, E in enumerate(entries) if E.task == "clf" for h in range((1 if E.slow else 2) if ctx.is_quick else (4 if E.slow else 15))]
+    jobs = [(ei, (ctx.seed, ei, h, 909)) for ei, E in enumerate(entries) if E.task == "clf" for h in range((2 if E.slow else 6) if ctx.is_quick else (4 if E.slow else 18))]
     for out in pmap(_job, jobs, chunksize=2):
         ctx.count(out["name"])
         if len({c for c in out["codes"] if c is not None}) >= 2:
